@@ -147,7 +147,7 @@ PROPS['C02'] = dict(
          'in one such case of three an application keeps offering 2..8 packets per second on the client tun device, the server tun device or both throughout (classes busy-*). '
          'non-trivial iff (a) >=1 multi-fragment delivery and >=1 idle gap > 4.5 s, (b) faults hit and >=6 deliveries',
     engine_text='rapidcheck over choice tapes; simnet (virtual clock owned by the harness turns liveness into bounded-horizon safety)',
-    bounds='<= 40 offers, <= 40 virtual s of faults; time bounds are in virtual time Round 5: bulk upload of 62..75 s before the paced offers in half of the upstream one-way cases; boundary-size packets (last fragment of 1, 2, F-1, F bytes).',
+    bounds='<= 40 offers, <= 40 virtual s of faults; time bounds are in virtual time Round 5: bulk upload of 62..75 s before the paced offers in half of the upstream one-way cases; boundary-size packets (last fragment of 1, 2, F-1, F bytes). One case in twelve: adversarial-network history (C01 third shape) + clean suffix of 12 packets each way, last 4 judged.',
     trusted_base=TB_SIM,
     assumptions=AS_SIM + ['"fits in 16 fragments" judged conservatively: compressed size <= 12 x Base32 fragment capacity'],
 )
